@@ -125,6 +125,29 @@ func c14Gen(rt *rapid.T) wProg {
 				p.Ops = append(p.Ops, wOp{K: "sub", S: sv, T: fmt.Sprintf("p%d", 1-victim)}, wOp{K: "sub", S: sp, T: fmt.Sprintf("p%d", victim)},
 					wOp{K: "del", S: sv, A: "user", U: victim, F: gPct(rt, 50)}, wOp{K: "pub", S: sp, T: fmt.Sprintf("p%d", victim)})
 			}
+		case x >= 95 && x < 98:
+			// an account is deleted while somebody's {sub} is loading one of its topics from the store
+			victim := gInt(rt, 0, 1, "racevictim")
+			sv, sp := -1, -1
+			for k, u := range p.Sess {
+				if u == victim && sv < 0 {
+					sv = k
+				}
+				if u != victim && sp < 0 {
+					sp = k
+				}
+			}
+			if sv >= 0 && sp >= 0 {
+				ref := "g0"
+				if p.Sess[sp] <= 1 && gPct(rt, 50) {
+					ref = fmt.Sprintf("p%d", victim)
+				}
+				for k := range p.Sess {
+					p.Ops = append(p.Ops, wOp{K: "leave", S: k, T: "g0"}, wOp{K: "leave", S: k, T: fmt.Sprintf("p%d", 1-min(p.Sess[k], 1))})
+				}
+				p.Ops = append(p.Ops, wOp{K: "tick", N: 5500}, wOp{K: "par", Par: []wOp{
+					{K: "sub", S: sp, T: ref, L: gInt(rt, 0, 3, "y1")}, {K: "del", S: sv, A: "user", U: victim, F: gPct(rt, 50), L: gInt(rt, 0, 3, "y2")}}})
+			}
 		case x < 92:
 			// slow consumer: pause one attached session, flood the topic from another one
 			s := gInt(rt, 1, len(p.Sess)-1, "slow")
